@@ -50,7 +50,7 @@ func ownershipCensus(c *factsCtx) (fields []ownField, accs []ownAccess) {
 	sort.Strings(files)
 	var parsed []*ast.File
 	for _, p := range files {
-		if strings.HasSuffix(p, "_test.go") || strings.Contains(p, "verif_export") {
+		if strings.HasSuffix(p, "_test.go") || verifOnly(p) {
 			continue
 		}
 		rel, _ := filepath.Rel(c.repo, p)
